@@ -92,7 +92,7 @@ func main() {
 				g(tier, rng, sh, nshards, func(op string) { ops = append(ops, op) })
 				results := make([]string, len(ops))
 				workers := 1
-				if len(ops) > 0 && (strings.HasPrefix(ops[0], "do ") || strings.HasPrefix(ops[0], "asm ") || strings.HasPrefix(ops[0], "srv ") || strings.HasPrefix(ops[0], "conc ")) {
+				if len(ops) > 0 && (strings.HasPrefix(ops[0], "do ") || strings.HasPrefix(ops[0], "dor ") || strings.HasPrefix(ops[0], "asm ") || strings.HasPrefix(ops[0], "srv ") || strings.HasPrefix(ops[0], "conc ")) {
 					workers = 24
 				}
 				if prop == "C14" {
